@@ -1949,6 +1949,11 @@ class Collection(object):
                 'let',
                 'The let argument of aggregate is valid but has not been implemented in mongomock '
                 'yet')
+        # A datetime written in the pipeline is a datetime handed to the library like any other:
+        # UTC milliseconds, read the way this collection reads the ones it stores.
+        pipeline = helpers.patch_datetime_awareness_in_document(pipeline)
+        if self.codec_options.tz_aware:
+            pipeline = helpers.make_datetime_timezone_aware_in_document(pipeline)
         in_collection = [doc for doc in self.find()]
         return aggregate.process_pipeline(in_collection, self.database, pipeline, session)
 
